@@ -70,6 +70,22 @@ def corpus(rng, quick):
         {"StartAt": "M", "States": {"M": {"Type": "Map", "ItemsPath": "$.items", "End": True,
                                           "Iterator": {"StartAt": "T", "States": {"T": T("g")}}}}},
         {"StartAt": "A", "States": {"A": T("f1")}}]}}}, {"items": [1, 2]}, {"g": [("ok",)], "f1": [("ok",)]}, {"g": 10, "f1": 15}))
+    # nested fan-outs with a failure that is caught inside while a sibling fails outside (CAUGHT slots, late continuation events)
+    inner = {"Type": "Parallel", "End": True, "Branches": [
+        {"StartAt": "IA", "States": {"IA": T("fa")}}, {"StartAt": "IB", "States": {"IB": T("fb")}}],
+        "Catch": [{"ErrorEquals": ["EA"], "Next": "IC", "ResultPath": "$.e"}]}
+    nm = {"StartAt": "P", "States": {"P": {"Type": "Parallel", "End": True, "Branches": [
+        {"StartAt": "IN", "States": {"IN": inner, "IC": {"Type": "Pass", "End": True}}},
+        {"StartAt": "O", "States": {"O": T("fo")}}]}}}
+    for (pa, po, tag) in [([("err", "EA", "m")], [("ok",)], "inner-caught"), ([("err", "EA", "m")], [("err", "EO", "m")], "both"),
+                          ([("ok",)], [("err", "EO", "m")], "outer-fails")]:
+        for d in ({"fa": 10, "fb": 30, "fo": 20}, {"fa": 30, "fb": 10, "fo": 5}):
+            out.append(S("nested-%s-%d" % (tag, d["fa"]), nm, {"x": 1}, {"fa": pa, "fb": [("ok",)], "fo": po}, d))
+    # a branch that catches its own task error and carries on while a sibling fails
+    out.append(S("branch-catch-vs-sibling-fail", {"StartAt": "P", "States": {"P": {"Type": "Parallel", "End": True, "Branches": [
+        {"StartAt": "A", "States": {"A": T("fa", Catch=[{"ErrorEquals": ["EA"], "Next": "R"}], Next="R"), "R": T("fr")}},
+        {"StartAt": "B", "States": {"B": T("fb")}}]}}}, {"x": 1},
+        {"fa": [("err", "EA", "m")], "fr": [("ok",)], "fb": [("err", "EB", "m")]}, {"fa": 5, "fr": 40, "fb": 20}))
     # minimised / kept past failures (corpus/engine.json)
     for c in common.load_corpus("engine"):
         out.append(S(c["name"], c["machine"], c["input"], {k: [tuple(o) for o in v] for k, v in c["plans"].items()},
